@@ -75,39 +75,12 @@ def make_client(kind: str, transport: Callable[[str, bool, int], Any], **kwargs:
     return Client(**kwargs)
 
 
-CODECS = ['default', 'classes', 'functions']
+from pbt.codecs import CODECS  # noqa: E402,F401
 
 
 def codec_kwargs(codec: str) -> Dict[str, Any]:
-    """client constructor arguments for a JSON codec configuration:
-    'classes'   - json_encoder / json_decoder classes: floats are parsed as Decimal, Decimal values are written as tagged strings;
-    'functions' - json_loader / json_dumper functions doing the same (the dumper also writes sorted keys, compact separators)"""
-    import decimal
-    import pjrpc.common
-
-    if codec == 'default':
-        return {}
-
-    class AppEncoder(pjrpc.common.JSONEncoder):
-        def default(self, o: Any) -> Any:
-            if isinstance(o, decimal.Decimal):
-                return f'decimal:{o}'
-            return super().default(o)
-
-    class AppDecoder(json.JSONDecoder):
-        def __init__(self, **kwargs: Any):
-            kwargs['parse_float'] = decimal.Decimal
-            super().__init__(**kwargs)
-
-    if codec == 'classes':
-        return {'json_encoder': AppEncoder, 'json_decoder': AppDecoder}
-
-    def loader(text: str, cls: Any = None, **kwargs: Any) -> Any:
-        return json.loads(text, cls=AppDecoder)
-
-    def dumper(obj: Any, cls: Any = None, **kwargs: Any) -> str:
-        return json.dumps(obj, cls=AppEncoder, sort_keys=True, separators=(',', ':'))
-    return {'json_loader': loader, 'json_dumper': dumper}
+    from pbt import codecs
+    return codecs.kwargs_for(codec, 'client')
 
 
 def call(kind: str, fn: Callable[[], Any]) -> Any:
